@@ -22,9 +22,15 @@ class LocalWorld(World):
         self.setup = {}
 
     # -- symbolic leaves
+    allow_empty = True       # may a generated value be the empty string? (tags and dependencies are stored as "")
+
     def fresh_value(self, base='val'):
         t = self.ctx.fresh_int(base)
-        self.ctx.assume(z3.And(t >= 1, t <= 1000, STRLEN(t) >= 8, STRLEN(t) <= 64))
+        tok = z3.And(t >= 1, t <= 1000, STRLEN(t) >= 8, STRLEN(t) <= 64)
+        if self.allow_empty:
+            from mirsym.models.strings import intern_tok
+            tok = z3.Or(tok, z3.And(t == intern_tok(''), STRLEN(t) == 0))
+        self.ctx.assume(tok)
         return TokStr(t)
 
     def fresh_ts(self):
@@ -122,8 +128,10 @@ class LocalWorld(World):
         if t is None:
             return None
         if isinstance(t, TokStr):
-            return {'id': model.eval(t.id, model_completion=True).as_long(),
-                    'len': model.eval(STRLEN(t.id), model_completion=True).as_long()}
+            ln = model.eval(STRLEN(t.id), model_completion=True).as_long()
+            if ln == 0:
+                return ''
+            return {'id': model.eval(t.id, model_completion=True).as_long(), 'len': ln}
         if isinstance(t, NumStr):
             return str(model.eval(t.v, model_completion=True).as_long()) if is_sym(t.v) else str(t.v)
         if is_sym(t):
